@@ -10,18 +10,38 @@ class CellItem(ctypes.Structure):
     pass
 
 
-CellItem._fields_ = [
-    ('fin', ctypes.c_bool), ('cat', ctypes.c_uint),
-    ('left', ctypes.POINTER(CellItem)), ('right', ctypes.POINTER(CellItem)),
-    ('in_score', ctypes.c_float), ('out_score', ctypes.c_float),
-    ('start_of_span', ctypes.c_uint), ('span_length', ctypes.c_uint),
-    ('head_id', ctypes.c_uint), ('rule_id', ctypes.c_uint)]
-
-
 class config(ctypes.Structure):
-    _fields_ = [('num_tags', ctypes.c_uint), ('unary_penalty', ctypes.c_float), ('beta', ctypes.c_float),
-                ('use_beta', ctypes.c_bool), ('pruning_size', ctypes.c_uint), ('nbest', ctypes.c_uint),
-                ('max_step', ctypes.c_uint)]
+    pass
+
+
+_CELL_FIELDS = [('fin', ctypes.c_bool), ('cat', ctypes.c_uint), ('left', ctypes.POINTER(CellItem)), ('right', ctypes.POINTER(CellItem)),
+                ('in_score', ctypes.c_float), ('out_score', ctypes.c_float), ('start_of_span', ctypes.c_uint), ('span_length', ctypes.c_uint),
+                ('head_id', ctypes.c_uint), ('rule_id', ctypes.c_uint)]
+_CONFIG_FIELDS = [('num_tags', ctypes.c_uint), ('unary_penalty', ctypes.c_float), ('beta', ctypes.c_float), ('use_beta', ctypes.c_bool),
+                  ('pruning_size', ctypes.c_uint), ('nbest', ctypes.c_uint), ('max_step', ctypes.c_uint)]
+# default layout (overwritten from the compiled header in load(): the mirrors follow the struct layout parsing.h actually has,
+# so fields may be added or reordered there without breaking the harness)
+_layout_done = False
+
+
+def _build(struct, fields, size, offsets):
+    order = sorted(range(len(fields)), key=lambda k: offsets[k])
+    out, pos, pad = [], 0, 0
+    for k in order:
+        name, typ = fields[k]
+        if offsets[k] < pos:
+            raise RuntimeError(f'overlapping fields in the layout reported by the shim ({name})')
+        if offsets[k] > pos:
+            out.append((f'_pad{pad}', ctypes.c_char * (offsets[k] - pos)))
+            pad += 1
+        out.append((name, typ))
+        pos = offsets[k] + ctypes.sizeof(typ)
+    if size > pos:
+        out.append((f'_pad{pad}', ctypes.c_char * (size - pos)))
+    struct._pack_ = 1
+    struct._fields_ = out
+    if ctypes.sizeof(struct) != size:
+        raise RuntimeError(f'cannot mirror {struct.__name__}: size {ctypes.sizeof(struct)} vs {size}')
 
 
 SCAFFOLD = ctypes.CFUNCTYPE(ctypes.c_int, ctypes.c_void_p, ctypes.c_uint, ctypes.c_uint, ctypes.c_void_p)
@@ -53,12 +73,17 @@ def load(path):
                                  ctypes.c_void_p, ctypes.c_void_p, SCAFFOLD, ctypes.c_void_p, ctypes.POINTER(config),
                                  ctypes.c_void_p, ctypes.c_void_p, ctypes.c_void_p, ctypes.c_void_p, ctypes.c_void_p]
     _lib.verif_batch_copy.argtypes = [ctypes.c_void_p, ctypes.c_void_p, ctypes.c_void_p]
+    global _layout_done
     lay = (ctypes.c_uint * 32)()
     n = _lib.verif_layout(lay)
-    exp = [ctypes.sizeof(CellItem)] + [getattr(CellItem, f).offset for f, _ in CellItem._fields_] \
-        + [ctypes.sizeof(config)] + [getattr(config, f).offset for f, _ in config._fields_]
-    if list(lay[:n]) != exp:
-        raise RuntimeError(f'struct layout of parsing.h differs from the ctypes mirror: {list(lay[:n])} vs {exp}')
+    vals = list(lay[:n])
+    nc, ng = len(_CELL_FIELDS), len(_CONFIG_FIELDS)
+    if n != 2 + nc + ng:
+        raise RuntimeError('unexpected layout report from the shim')
+    if not _layout_done:
+        _build(CellItem, _CELL_FIELDS, vals[0], vals[1:1 + nc])
+        _build(config, _CONFIG_FIELDS, vals[1 + nc], vals[2 + nc:2 + nc + ng])
+        _layout_done = True
     global hook_present, hook_active
     hook_present = bool(_lib.verif_has_hook())
     hook_active = bool(_lib.verif_install_hook()) if hook_present else False
